@@ -61,6 +61,8 @@ pub trait HC: Codec + 'static + std::panic::RefUnwindSafe + std::panic::UnwindSa
     fn sym_cmp(_a: Self, _b: Self) -> Option<Ordering> {
         None
     }
+    /// the codec's functions called on the CONCRETE type (inherent items of the type take precedence over the trait's)
+    fn sym_concrete(s: Self, b: u8) -> String;
     /// hand-built `SeqArray<Self, N, W>` holding the content of `x` (N = x.len(), W = words needed), passed on through Deref
     fn arr_dispatch<T>(x: &SeqSlice<Self>, cont: &mut dyn FnMut(&SeqSlice<Self>) -> crate::eval::R<T>) -> crate::eval::R<T>;
     /// `Seq::<Self>::from(&SeqArray)` / `Seq::<Self>::from(SeqArray)`
@@ -98,6 +100,12 @@ macro_rules! arr_methods {
         $crate::arr_methods!(@go $ty; 1 2 3 4 5 8 10 11 12 13 15 16 17 21 31 32 33 48 63 64 65 96 128);
     };
     (@go $ty:ty; $($n:literal)*) => {
+        fn sym_concrete(s: Self, b: u8) -> String {
+            let s: $ty = s;
+            let o = |x: Option<$ty>| x.map(|y| format!("{:02x}", y.to_bits())).unwrap_or("none".into());
+            let items: Vec<String> = <$ty>::items().map(|y| format!("{:02x}", y.to_bits())).collect();
+            format!("{:02x} {:02x} {} {} {}", s.to_char() as u32, s.to_bits(), o(<$ty>::try_from_bits(b)), o(<$ty>::try_from_ascii(b)), items.concat())
+        }
         fn arr_dispatch<T>(x: &SeqSlice<Self>, cont: &mut dyn FnMut(&SeqSlice<Self>) -> $crate::eval::R<T>) -> $crate::eval::R<T> {
             match x.len() {
                 $($n => {
